@@ -213,6 +213,11 @@ func (d *Document) MergeFieldsDefer(left, right int) {
 		leftDeferIdValue, _ := d.DirectiveArgumentValueByName(leftDeferDirectiveRef, []byte("id"))
 		rightDeferIdValue, _ := d.DirectiveArgumentValueByName(rightDeferDirectiveRef, []byte("id"))
 
+		if leftDeferIdValue.Kind != ValueKindInteger || rightDeferIdValue.Kind != ValueKindInteger {
+			// not written by the normalizer (the internal directive can be spelled by a client): nothing to reconcile
+			return
+		}
+
 		leftId := int(d.IntValueAsInt(leftDeferIdValue.Ref))
 		rightId := int(d.IntValueAsInt(rightDeferIdValue.Ref))
 
